@@ -37,6 +37,8 @@ static bool gen_c06(uint64_t seed, const std::string &tier, uint64_t i, Plan &p)
   p.knobs.set("msg", msg);
   // legal short writes on the connection (a blocked writer that was signalled or stopped): write() accepts only a few of the bytes offered
   if (r.chance(0.3)) { int nf = (int)r.range(1, 3); for (int q = 0; q < nf; q++) { Fault f; f.actor = "qmail-remote"; f.call = C_WRITE; f.nth = (int)r.range(1, 12); f.kind = "short"; f.arg = r.pick(std::vector<int64_t>{1, 2, 10, 100, 300, 500, 511, 513}); p.faults.push_back(f); } }
+  // the queue file becomes unreadable half-way (I/O error on a refill of the input buffer)
+  if (r.chance(0.1) && p.faults.empty()) { Fault f; f.actor = "qmail-remote"; f.call = C_READ; f.path = "/mess/"; f.nth = (int)r.range(1, 6); f.kind = "error"; f.err = EIO; p.faults.push_back(f); }
   bool relay = i % 5 == 4 && msg.find('\r') == std::string::npos;
   if (relay) { p.knobs.set("relay", true); lab += " (to own smtpd)"; }
   Json rc = Json::arr(); rc.push("u@r.example"); p.knobs.set("rcpts", rc);
@@ -73,7 +75,7 @@ static bool gen_c09(uint64_t seed, const std::string &tier, uint64_t i, Plan &p)
       std::string o; int segs = (int)r.range(0, 4);
       for (int s2 = 0; s2 < segs; s2++) { o += r.pick(std::vector<std::string>{"r", "h host does not like recipient.\n", "s try later\n", "K accepted", "Z deferred", "D failed", "k", "", "x junk", "Kok", "rK"}); if (r.chance(0.85)) o += Z; }
       int kind = (int)r.below(12); if (kind == 0) o = ""; else if (kind == 1) o = Z; else if (kind == 2) o = std::string((size_t)r.range(1000, 100000), 'K'); else if (kind == 3) o = "K" + Z; else if (kind == 4) o = "r" + Z + "K ok" + Z;
-      Json a = Json::obj(); a.set("out", o).set("code", (long long)(r.chance(0.5) ? 0 : r.pick(std::vector<int>{111, 100, 1, 255, 0, 99, 112, 110}))).set("lat", (long long)r.below(2)); if (r.chance(0.1)) a.set("crash", true); ag.push(a);
+      Json a = Json::obj(); a.set("out", o).set("code", (long long)(r.chance(0.5) ? 0 : r.pick(std::vector<int>{111, 100, 1, 255, 0, 99, 112, 110}))).set("lat", (long long)r.below(2)); if (r.chance(0.1)) a.set("crash", true); if (r.chance(0.3)) a.set("linger", (long long)r.range(1, 5)); ag.push(a);
     }
     p.ops.push(Json::obj().set("op", "stream").set("bytes", st)); p.knobs.set("agents", ag);
     p.label = "spawner leg: " + std::to_string(n) + " deliveries";
